@@ -130,7 +130,10 @@ def body(ctx, case):
     if not is_cnls:
         kind = case["test"].replace("-inv", "")
         X = 1 / Z if adm else Z
-        cond = S.kk_design_cond(f, S.kk_taus(f, case["num_RC"], case["log_F_ext"]), case["addC"], True if case["test"].endswith("-inv") else case["addL"], adm, X, kind)
+        # the real-part fit does not contain the (purely imaginary) capacitance and inductance columns
+        has_C = case["addC"] and kind != "real"
+        has_L = (True if case["test"].endswith("-inv") else case["addL"]) and kind != "real"
+        cond = S.kk_design_cond(f, S.kk_taus(f, case["num_RC"], case["log_F_ext"]), has_C, has_L, adm, X, kind)
         extra = EPS * cond * cond if case["test"] == "complex-inv" else 10 * EPS * cond
         extra = min(extra, 1e-2)
         if cond > 1e5:
